@@ -391,19 +391,29 @@ func (n NaturalLanguageValues) MarshalJSON() ([]byte, error) {
 	}
 	b.Write([]byte{'{'})
 	empty := true
-	for _, val := range n {
+	for k, val := range n {
 		if len(val.Ref) == 0 || len(val.Value) == 0 {
+			continue
+		}
+		// every entry is a "tag": "text" member, the entry without a language under the NilLangRef tag;
+		// a tag that was already written is not repeated (Get returns the first entry for a tag)
+		written := false
+		for _, prev := range n[:k] {
+			if prev.Ref == val.Ref && len(prev.Value) > 0 {
+				written = true
+				break
+			}
+		}
+		if written {
 			continue
 		}
 		if !empty {
 			b.Write([]byte{','})
 		}
-		if v, err := val.MarshalJSON(); err == nil && len(v) > 0 {
-			l, err := b.Write(v)
-			if err == nil && l > 0 {
-				empty = false
-			}
-		}
+		stringBytes(&b, []byte(val.Ref), false)
+		b.Write([]byte{':'})
+		stringBytes(&b, val.Value, false)
+		empty = false
 	}
 	b.Write([]byte{'}'})
 	if !empty {
